@@ -630,7 +630,47 @@ def run(ck):
                 c[fld] = rng.choice([1, 3]) if "segment" in fld else rng.choice([0.0, 0.25, 1.0])
             cs.append(c)
         hs.append(cs)
-    res = ck.impl("c19_impl.py", {"acc": [c for c, _, _ in cases], "docs": docs, "hsfi": hs}, timeout=1500)
+    # the SAME object used for several calls with its attributes changed in place between them (no state may be kept)
+    seqs, cur = [], None
+    order = [i for i, (c, _, k) in enumerate(cases) if c.get("mode") == "set" and not k.startswith("ExplicitInput.")]
+    order.sort(key=lambda i: cases[i][0]["cls"])
+    for i in order:
+        c = cases[i][0]
+        if cur is None or cur["cls"] != c["cls"] or len(cur["steps"]) >= 6:
+            cur = {"cls": c["cls"], "steps": [], "idx": []}
+            seqs.append(cur)
+        st = {"method": c["method"], "attrs": c["attrs"]}
+        if "arg" in c:
+            st["arg"] = c["arg"]
+        cur["steps"].append(st)
+        cur["idx"].append(i)
+    # a few fixed ones: the same attribute, the same accessor, different values one after the other
+    fixed_seq = [
+        {"cls": "Connection", "steps": [{"method": "get_pre_cell_id", "attrs": {"pre_cell_id": V(v)}} for v in
+                                        ("../pop/3/cell", "../pop/4/cell", "q[7]", "../pop/3/cell")], "want": [3, 4, 7, 3]},
+        {"cls": "ConnectionWD", "steps": [{"method": "get_delay_in_ms", "attrs": {"delay": V(v)}} for v in ("5 ms", "5 s", "2ms", "5 ms")],
+         "want": [5.0, 5000.0, 2.0, 5.0]},
+        {"cls": "Input", "steps": [{"method": "get_fraction_along", "attrs": {"fraction_along": V(v)}} for v in (0.25, None, 0.0, 0.75)],
+         "want": [0.25, 0.5, 0.0, 0.75]},
+        {"cls": "Input", "steps": [{"method": "get_segment_id", "attrs": {"segment_id": V(v)}} for v in (2, None, 0, 5)], "want": [2, 0, 0, 5]},
+        {"cls": "InputW", "steps": [{"method": "get_weight", "attrs": {"weight": V(v)}} for v in (2.0, None, 0.0, 3.0)],
+         "want": [2.0, 1.0, 0.0, 3.0]},
+        {"cls": "ExplicitInput", "steps": [{"method": "get_target_population", "attrs": {"target": V(v)}} for v in
+                                           ("../a/1/c", "b[2]", "../c[3]", "../a/1/c")], "want": ["a", "b", "c", "a"]},
+        {"cls": "Population", "steps": [{"method": "get_size", "attrs": {"instances": V(("list", n)), "size": V(sz)}} for n, sz in
+                                        ((0, 5), (3, 5), (0, None), (0, 7))], "want": [5, 3, 0, 7]},
+    ]
+    dochists = []
+    for i in range(ck.n(12, 150)):
+        nets = [gen_network(rng, "net%d" % j, big=False) for j in range(rng.choice([1, 2]))]
+        dochists.append({"id": "hdoc%d" % i, "networks": nets,
+                         "add": {"pop_size": rng.randint(0, 9), "instances": rng.choice([0, 0, 2, 5]), "conns": rng.randint(1, 4),
+                                 "inputs": rng.randint(1, 3)}})
+    res = ck.impl("c19_impl.py", {"acc": [c for c, _, _ in cases], "docs": docs, "hsfi": hs,
+                                  "accseq": [{"cls": q["cls"], "steps": q["steps"]} for q in fixed_seq + seqs],
+                                  "dochist": dochists}, timeout=1500)
+    check_sequences(ck, cases, fixed_seq, seqs, res)
+    check_dochists(ck, dochists, res["dochist"])
     # ---------------------------------------------------------------- correspondence (kernel evaluates the translated programs)
     modelled = []
     if have_model:
@@ -755,6 +795,60 @@ def run(ck):
         if got != want:
             ck.witness("C19:has_segment_fraction_info", "has_segment_fraction_info disagrees with its definition", input=cs,
                        expected=want, observed=got)
+
+
+def check_sequences(ck, cases, fixed_seq, seqs, res):
+    out = res["accseq"]
+    for q, rs in zip(fixed_seq, out[:len(fixed_seq)]):
+        ck.count(1, nontrivial_key=("accseq", json.dumps(q["steps"])))
+        for k, (st, r, w) in enumerate(zip(q["steps"], rs, q["want"])):
+            got = unV(r["ok"]) if "ok" in r else ("raises", r["err"])
+            if got != w:
+                ck.witness("C19:history:%s" % st["method"], "%s.%s() on an object whose attribute was changed in place between calls "
+                           "returns %r, the current data says %r" % (q["cls"], st["method"], got, w),
+                           input={"cls": q["cls"], "steps (same object)": q["steps"][:k + 1]}, expected=w, observed=r)
+    for q, rs in zip(seqs, out[len(fixed_seq):]):
+        ck.count(1, nontrivial_key=("accseq", json.dumps(q["steps"], sort_keys=True)))
+        ck.tally("accseq:steps", len(q["steps"]))
+        for k, (i, r) in enumerate(zip(q["idx"], rs)):
+            fresh = res["acc"][i]["res"]
+            if json.dumps(fresh, sort_keys=True) != json.dumps(r, sort_keys=True):
+                ck.witness("C19:history:%s" % q["steps"][k]["method"], "%s.%s(): an object used for earlier calls and then changed in place "
+                           "answers differently from a fresh object with the same attributes" % (q["cls"], q["steps"][k]["method"]),
+                           input={"cls": q["cls"], "steps (same object)": q["steps"][:k + 1]}, expected=fresh, observed=r)
+
+
+def check_dochists(ck, dochists, results):
+    for d, r in zip(dochists, results):
+        ck.count(1, nontrivial_key=("dochist", json.dumps(d, sort_keys=True, default=str)))
+        ck.tally("dochist")
+        if r["error"]:
+            ck.witness("C19:summary-history:raises", "summary() before/after growing the document raised: %s" % r["error"], input=d,
+                       observed=r["error"])
+            continue
+        a = d["add"]
+        b, af = parse_summary(r["before"]), parse_summary(r["after"])
+        for ni, n in enumerate(d["networks"]):
+            t = net_totals(n)
+            want_b = dict(t)
+            want_a = dict(t)
+            want_a["populations"] += 1
+            want_a["cells"] += a["instances"] if a["instances"] > 0 else a["pop_size"]
+            want_a["connections"] += a["conns"] * (len(n["projs"]) + len(n["eprojs"]))
+            want_a["inputs"] += a["inputs"] * len(n["input_lists"])
+            for tag, want, got in (("before", want_b, b[ni] if ni < len(b) else {}), ("after", want_a, af[ni] if ni < len(af) else {})):
+                for k, v in want.items():
+                    if k.startswith("explicit") and v == 0:
+                        continue
+                    if got.get(k) != v:
+                        ck.witness("C19:summary-history:%s" % k, "summary() %s the document was grown in place reports %s %s, the network has %d"
+                                   % (tag, got.get(k), k, v), input={"network": n, "added in place after the first summary()": a},
+                                   expected=v, observed=got.get(k))
+            ws = [a["pop_size"], a["instances"] if a["instances"] > 0 else a["pop_size"]]
+            gs = r["sizes"][2 * ni:2 * ni + 2]
+            if gs != ws:
+                ck.witness("C19:history:get_size", "Population.get_size() before / after instances were appended in place", input=a,
+                           expected=ws, observed=gs)
 
 
 def check_events(ck, doc, events):
